@@ -309,6 +309,14 @@ func (w *Worker) intrinsic(fn *ssa.Function, args []Val) (Val, bool) {
 	case "runtime.KeepAlive", "runtime.GC", "runtime.Gosched":
 		return nil, true
 	}
+	if strings.HasPrefix(full, "sync/atomic.") {
+		if r, ok := w.atomicIntrinsic(fn, args); ok {
+			return r, true
+		}
+	}
+	if strings.HasPrefix(full, "(*sync.Map).") {
+		return w.syncMapIntrinsic(fn.Name(), args), true
+	}
 	if strings.HasPrefix(full, "github.com/gobwas/pool") || strings.HasPrefix(full, "(*github.com/gobwas/pool") {
 		if r, ok := w.poolIntrinsic(full, fn, args); ok {
 			return r, true
@@ -634,4 +642,129 @@ func toStr(v Val) Str {
 		return Str{x.Obj, x.Off, x.Len}
 	}
 	panic(engineError{"toStr"})
+}
+
+// atomicIntrinsic: sync/atomic primitives with sequential semantics (threads are cooperative).
+func (w *Worker) atomicIntrinsic(fn *ssa.Function, args []Val) (Val, bool) {
+	name := fn.Name()
+	if fn.Signature.Recv() != nil || len(args) == 0 {
+		return nil, false
+	}
+	pt, ok := fn.Signature.Params().At(0).Type().Underlying().(*types.Pointer)
+	if !ok {
+		return nil, false
+	}
+	et := pt.Elem()
+	p := args[0]
+	switch {
+	case strings.HasPrefix(name, "Load"):
+		return w.load(p, et), true
+	case strings.HasPrefix(name, "Store"):
+		w.store(p, args[1], et)
+		return nil, true
+	case strings.HasPrefix(name, "Add"):
+		old := w.load(p, et).(*Term)
+		nv := w.ts.Bin(OAdd, old, args[1].(*Term))
+		w.store(p, nv, et)
+		return nv, true
+	case strings.HasPrefix(name, "And"), strings.HasPrefix(name, "Or"):
+		old := w.load(p, et).(*Term)
+		op := OAnd
+		if strings.HasPrefix(name, "Or") {
+			op = OOr
+		}
+		w.store(p, w.ts.Bin(op, old, args[1].(*Term)), et)
+		return old, true
+	case strings.HasPrefix(name, "Swap"):
+		old := w.load(p, et)
+		w.store(p, args[1], et)
+		return old, true
+	case strings.HasPrefix(name, "CompareAndSwap"):
+		old := w.load(p, et)
+		eq := w.valEq(old, args[1], et)
+		if w.branch(eq) {
+			w.store(p, args[2], et)
+			return w.ts.True, true
+		}
+		return w.ts.False, true
+	}
+	return nil, false
+}
+
+// syncMapIntrinsic models sync.Map with concrete keys (sequential semantics); a write to a
+// sync.Map that is package-level state counts as a write to shared state (obligation O1).
+func (w *Worker) syncMapIntrinsic(name string, args []Val) Val {
+	ts := w.ts
+	p := args[0].(Ptr)
+	key := fmt.Sprintf("%d:%d", p.Obj, p.Off)
+	if w.syncMaps == nil {
+		w.syncMaps = map[string]*MapVal{}
+	}
+	m := w.syncMaps[key]
+	if m == nil {
+		m = &MapVal{KeyV: map[string]Val{}, Vals: map[string]Val{}}
+		w.syncMaps[key] = m
+	}
+	wrote := func() {
+		if o, ok := w.baseObjs[p.Obj]; ok {
+			w.noteGlobalWrite(o.Tag)
+		}
+	}
+	switch name {
+	case "Load":
+		k := w.mapKey(args[1])
+		if v, ok := m.Vals[k]; ok {
+			return Tuple{v, ts.True}
+		}
+		return Tuple{Iface{}, ts.False}
+	case "Store":
+		k := w.mapKey(args[1])
+		if _, ok := m.Vals[k]; !ok {
+			m.Keys = append(m.Keys, k)
+		}
+		m.KeyV[k], m.Vals[k] = args[1], args[2]
+		wrote()
+		return nil
+	case "LoadOrStore":
+		k := w.mapKey(args[1])
+		if v, ok := m.Vals[k]; ok {
+			return Tuple{v, ts.True}
+		}
+		m.Keys = append(m.Keys, k)
+		m.KeyV[k], m.Vals[k] = args[1], args[2]
+		wrote()
+		return Tuple{args[2], ts.False}
+	case "LoadAndDelete":
+		k := w.mapKey(args[1])
+		v, ok := m.Vals[k]
+		delete(m.Vals, k)
+		delete(m.KeyV, k)
+		if ok {
+			wrote()
+			return Tuple{v, ts.True}
+		}
+		return Tuple{Iface{}, ts.False}
+	case "Delete":
+		k := w.mapKey(args[1])
+		if _, ok := m.Vals[k]; ok {
+			wrote()
+		}
+		delete(m.Vals, k)
+		delete(m.KeyV, k)
+		return nil
+	case "Range":
+		f := args[1].(*Closure)
+		for _, k := range append([]string(nil), m.Keys...) {
+			v, ok := m.Vals[k]
+			if !ok {
+				continue
+			}
+			r := w.callFunction(f.Fn, []Val{m.KeyV[k], v}, f.Bind)
+			if t, ok := r.(*Term); ok && t.isFalse() {
+				break
+			}
+		}
+		return nil
+	}
+	panic(engineError{"sync.Map." + name + " not modelled"})
 }
